@@ -8,6 +8,7 @@ import (
 	"strings"
 	"sync"
 	"testing"
+	"time"
 	"unicode/utf8"
 
 	"github.com/bufbuild/protocompile/experimental/ast"
@@ -55,6 +56,8 @@ var hostileExp = []string{
 	".", "..", "...", "\\", "\"\\", "\"\\x\"", "\"\\U00110000\"", "\"\\777\"", "r\"raw\"", "b'bytes'", "rb\"x\"", "\"a\" \"b\" 'c'", "\"a\"\n\n\"b\"",
 	"a ? b : c", "a && b || !c", "x in [1, 2]", "a.b(c)[d]", "has(x.y)", "size(x) > 0", "1 + 2 * 3 - -4 / 5 % 6", "x == y != z <= w >= v", "{a: 1, b: [2, 3]}", "x.map(y, y * 2)",
 	"option", "message", "extend", "group", "map<", "map<,>", "oneof", "rpc", "returns", "stream", "reserved", "extensions", "to max", "syntax", "edition", "import public weak",
+	"{0<}", "{a < b: 1}", "<a:", "/* a\n\n\n  b  \n*/", "{a: A.}", "[A.]", "(o.)", "{a: .}", "A.", "a/", "{a: b.c/}",
+	"1e44444444", "1e-44444444", "1.5e-2147483650", "0x1p999999999", "9e99999999999999999999", "1e44444444f",
 	"export", "local", "import option", "\r", "\v", "\f", "\u2028", "\ufeff", "\ufffd", "$", "#", "@", "`", "~", "?", "é", "日本", "😀", "ident\u00e9",
 }
 
@@ -120,8 +123,35 @@ func expParse(name, text string) (file *ast.File, rep *report.Report, ok bool, e
 }
 
 // c28Oracle is shared by the rapid test and the native fuzz target.
+// expParseTimed decides "the lexer and parser finish": a parse that has not returned after
+// 4 s + 1 ms per input byte is tried twice more, and reported only when all three attempts
+// overran (the inputs are at most a few tens of kilobytes and otherwise parse in
+// milliseconds, so machine load cannot explain three overruns).
+func expParseTimed(name, text string) (file *ast.File, rep *report.Report, ok bool, err error) {
+	type res struct {
+		file *ast.File
+		rep  *report.Report
+		ok   bool
+		err  error
+	}
+	limit := 4*time.Second + time.Duration(len(text))*time.Millisecond
+	for attempt := 0; attempt < 3; attempt++ {
+		ch := make(chan res, 1)
+		go func() {
+			f, r, ok, err := expParse(name, text)
+			ch <- res{f, r, ok, err}
+		}()
+		select {
+		case r := <-ch:
+			return r.file, r.rep, r.ok, r.err
+		case <-time.After(limit):
+		}
+	}
+	return nil, nil, false, fmt.Errorf("parser.Parse did not finish within %v on three attempts (%d-byte input)", limit, len(text))
+}
+
 func c28Oracle(name, text string) (nerr, nwarn int, err error) {
-	file, rep, ok, err := expParse(name, text)
+	file, rep, ok, err := expParseTimed(name, text)
 	if err != nil {
 		return 0, 0, err
 	}
@@ -222,11 +252,11 @@ func c28Check(c srcCase, r *ev.Rec) error {
 	return nil
 }
 
-const c28Rule = "byte strings: random bytes, soups of hostile fragments (unterminated strings/comments, stray and mismatched brackets, NUL, invalid UTF-8, BOMs, numeric and escape edge cases, CEL-like expressions, keywords), the experimental packages' own lexer/parser/ir/printer test inputs and stable-parser-accepted generated files, verbatim or after hostile insertions plus 1-4 mutations (truncation, token deletion/duplication/swap/replacement, bit flips), nesting up to 400 deep"
+const c28Rule = "byte strings: random bytes, soups of hostile fragments (unterminated strings/comments, stray and mismatched brackets, NUL, invalid UTF-8, BOMs, numeric and escape edge cases incl. astronomically large exponents, CEL-like expressions, keywords), the experimental packages' own lexer/parser/ir/printer test inputs and stable-parser-accepted generated files, verbatim or after hostile insertions plus 1-4 mutations (truncation, token deletion/duplication/swap/replacement, bit flips), nesting up to 400 deep"
 
 func TestC28_Total(t *testing.T) {
 	ev.Run(t, ev.Spec[srcCase]{ID: "C28", Name: "Total", Quick: 4000, Thorough: 200000,
-		Rule: c28Rule + "; oracle: no panic escapes parser.Parse, the file is non-nil, no diagnostic has level ICE, ok == (no diagnostic of level Error), and every annotation of every diagnostic (read from Report.ToProto) refers to the input text with 0 <= start <= end <= len(text), edits included; non-trivial = at least one diagnostic; distinct by text",
+		Rule: c28Rule + "; oracle: parser.Parse returns (within 4 s + 1 ms/byte, three attempts), no panic escapes it, the file is non-nil, no diagnostic has level ICE, ok == (no diagnostic of level Error), and every annotation of every diagnostic (read from Report.ToProto) refers to the input text with 0 <= start <= end <= len(text), edits included; non-trivial = at least one diagnostic; distinct by text",
 		Gen:  genExpInput, Check: c28Check})
 }
 
